@@ -238,6 +238,16 @@ func (s *Script) axiomOnce(ax string) {
 	s.axioms = append(s.axioms, ax)
 }
 
+// axiomFor adds an axiom that is emitted only in queries where the symbol sym occurs.
+func (s *Script) axiomFor(sym, ax string) {
+	key := "axf:" + ax
+	if s.declSeen[key] {
+		return
+	}
+	s.declSeen[key] = true
+	s.gaxioms = append(s.gaxioms, "REQ:"+sym+"\x00"+ax)
+}
+
 func (s *Script) freshConst(base string, sort Sort) *Term {
 	base = strings.Map(func(r rune) rune {
 		if r >= 'a' && r <= 'z' || r >= 'A' && r <= 'Z' || r >= '0' && r <= '9' || r == '_' || r == '.' || r == '$' || r == '@' || r == '!' {
@@ -327,17 +337,37 @@ func (s *Script) render(extra []string, getValues []string) string {
 	}
 	if len(s.gaxioms) > 0 {
 		body := strings.Join(s.asserts, "\n") + strings.Join(extra, "\n")
-		for _, a := range s.gaxioms {
-			syms := symRe.FindAllString(a, -1)
-			relevant := len(syms) == 0
-			for _, sy := range syms {
-				if strings.Contains(body, sy) {
-					relevant = true
-					break
+		included := make([]bool, len(s.gaxioms))
+		for changed := true; changed; {
+			changed = false
+			for i, a := range s.gaxioms {
+				if included[i] {
+					continue
 				}
-			}
-			if relevant {
-				fmt.Fprintf(&b, "(assert %s)\n", a)
+				ax := a
+				relevant := false
+				if strings.HasPrefix(a, "REQ:") {
+					// definition of an opaque spec function: needed only where the function occurs
+					k := strings.Index(a, "\x00")
+					req := a[4:k]
+					ax = a[k+1:]
+					relevant = strings.Contains(body, req+" ") || strings.Contains(body, req+")")
+				} else {
+					syms := symRe.FindAllString(a, -1)
+					relevant = len(syms) == 0
+					for _, sy := range syms {
+						if strings.Contains(body, sy) {
+							relevant = true
+							break
+						}
+					}
+				}
+				if relevant {
+					included[i] = true
+					changed = true
+					body += "\n" + ax
+					fmt.Fprintf(&b, "(assert %s)\n", ax)
+				}
 			}
 		}
 	}
